@@ -71,6 +71,10 @@ struct Artifact {
     check: Box<dyn Fn(&[u8]) -> Verdict>,
 }
 
+fn root_of_loads(file: &std::path::Path) -> std::path::PathBuf {
+    file.parent().and_then(|p| p.parent()).map(|p| p.join("idxloads")).unwrap_or_else(|| std::path::PathBuf::from("idxloads"))
+}
+
 fn key16(rng: &mut Rng) -> [u8; 16] {
     let mut k = [0u8; 16];
     rng.fill(&mut k);
@@ -110,7 +114,17 @@ fn build_artifact(kind: &str, aseed: u64, n: u32, root: &std::path::Path) -> Res
             Ok(Artifact {
                 bytes,
                 // pages (hashed) and the index entries' 16-byte page MD5s
-                protected: vec![cpages..eidx, epages..end],
+                protected: {
+                    // each 32-byte index entry = 16-byte first key + 16-byte MD5 of its page: the MD5 itself too
+                    let mut v = vec![cpages..eidx, epages..end];
+                    for i in 0..h.ckey_page_count as usize {
+                        v.push(cidx + 32 * i + 16..cidx + 32 * i + 32);
+                    }
+                    for i in 0..h.ekey_page_count as usize {
+                        v.push(eidx + 32 * i + 16..eidx + 32 * i + 32);
+                    }
+                    v
+                },
                 whole: false,
                 fixed_size: false,
                 check: Box::new(move |b| match EncodingFile::parse(b) {
@@ -204,6 +218,155 @@ fn build_artifact(kind: &str, aseed: u64, n: u32, root: &std::path::Path) -> Res
                 }),
             })
         }
+        "idx_file" => {
+            // A whole bucket file written by the real IndexManager::save_all with entries pending in its update
+            // section, read back by the real loader: the hash guard of an update entry must protect it on the
+            // LOAD path, not only when somebody calls validate_hash_guard() by hand.
+            use cascette_client_storage::index::IndexManager;
+            let dir = root.join("idxart");
+            std::fs::create_dir_all(&dir).map_err(|e| e.to_string())?;
+            let mut im = IndexManager::new(&dir);
+            // all keys in one bucket (first 8 bytes zero: the bucket is the folded 9th byte): byte 8 = 0x10 | j
+            let key_of = |j: u32| -> [u8; 16] {
+                let mut k = [0u8; 16];
+                // distinct 9-byte prefixes, same bucket: every varying byte appears twice (XOR cancels)
+                k[8] = 0x10;
+                k[2] = (j >> 8) as u8;
+                k[3] = j as u8;
+                k[4] = k[2];
+                k[5] = k[3];
+                k[0] = 0x5A;
+                k[1] = 0x5A;
+                k
+            };
+            let nsorted = n % 7 + 1;
+            for j in 0..nsorted {
+                im.add_entry(&EncodingKey::from_bytes(key_of(j)), (j % 1000) as u16, 64 * j + 30, 100 + j).map_err(|e| e.to_string())?;
+            }
+            im.flush_all_updates().map_err(|e| e.to_string())?;
+            let npending = n % 5 + 2;
+            for j in 0..npending {
+                im.add_entry(&EncodingKey::from_bytes(key_of(100 + j)), 7, 4096 * (j + 1), 55 + j).map_err(|e| e.to_string())?;
+            }
+            if n % 2 == 0 {
+                let _ = im.remove_entry(&EncodingKey::from_bytes(key_of(0)));
+            }
+            im.save_all().map_err(|e| e.to_string())?;
+            let file = std::fs::read_dir(&dir).map_err(|e| e.to_string())?.flatten().map(|e| e.path()).filter(|p| p.extension().is_some_and(|x| x == "idx")).max_by_key(|p| std::fs::metadata(p).map(|m| m.len()).unwrap_or(0)).ok_or("no .idx file written")?;
+            let fname = file.file_name().map(|f| f.to_os_string()).ok_or("no file name")?;
+            let bytes = std::fs::read(&file).map_err(|e| e.to_string())?;
+            let load = move |b: &[u8], tag: &str| -> Result<String, String> {
+                let d = root_of_loads(&file).join(tag);
+                let _ = std::fs::remove_dir_all(&d);
+                std::fs::create_dir_all(&d).map_err(|e| e.to_string())?;
+                std::fs::write(d.join(&fname), b).map_err(|e| e.to_string())?;
+                let mut fresh = IndexManager::new(&d);
+                super::paused_runtime().block_on(fresh.load_all()).map_err(|e| e.to_string())?;
+                let mut v: Vec<String> = fresh.iter_entries().map(|(b, e)| format!("{b}:{e:?}")).collect();
+                v.sort();
+                let _ = std::fs::remove_dir_all(&d);
+                Ok(v.join(";"))
+            };
+            let orig = load(&bytes, "orig")?;
+            // protected = every non-empty 24-byte entry of every 512-byte page of the update section
+            // (which starts at the first 64 KiB boundary at or after the sorted section)
+            let mut protected = Vec::new();
+            let start = 0x1_0000usize;
+            let mut off = start;
+            while off + 512 <= bytes.len() {
+                for j in 0..21 {
+                    let o = off + j * 24;
+                    if bytes[o..o + 4] != [0, 0, 0, 0] {
+                        protected.push(o..o + 23);
+                    }
+                }
+                off += 512;
+            }
+            if protected.is_empty() {
+                return Err("the saved .idx file has no update entries".into());
+            }
+            Ok(Artifact {
+                bytes,
+                protected,
+                whole: false,
+                fixed_size: true,
+                check: Box::new(move |b| match load(b, "cand") {
+                    Err(_) => Verdict::Refused,
+                    Ok(v) if v == orig => Verdict::Same,
+                    Ok(v) => Verdict::Different(format!("IndexManager::load_all accepted the file and yields {} (original: {})", &v[..v.len().min(300)], &orig[..orig.len().min(300)])),
+                }),
+            })
+        }
+        "residency_file" => {
+            // The residency database as ResidencyDb::save writes it, read back by ResidencyDb::load: the hash
+            // guard of every stored entry must protect it on the load path.
+            use cascette_client_storage::kmt::key_state::ResidencyDb;
+            let dir = root.join("resart");
+            std::fs::create_dir_all(&dir).map_err(|e| e.to_string())?;
+            let path = dir.join("key_state_v8");
+            let mut db = ResidencyDb::new(path.clone());
+            let nkeys = n % 9 + 2;
+            let mut keys = Vec::new();
+            for j in 0..nkeys {
+                let mut k = key16(&mut rng);
+                k[15] = j as u8;
+                db.mark_resident(&k);
+                keys.push(k);
+            }
+            if n % 3 == 0 {
+                db.mark_non_resident(&keys[0]);
+            }
+            if n % 4 == 1 {
+                db.mark_span_non_resident(&keys[1], 16, 64);
+            }
+            db.save().map_err(|e| e.to_string())?;
+            let bytes = std::fs::read(&path).map_err(|e| e.to_string())?;
+            let keys2 = keys.clone();
+            let load = move |b: &[u8]| -> Result<String, String> {
+                let p = dir.join("cand_key_state_v8");
+                std::fs::write(&p, b).map_err(|e| e.to_string())?;
+                let db = ResidencyDb::load(&p).map_err(|e| e.to_string())?;
+                let mut scan = db.scan_keys();
+                scan.sort_unstable();
+                let res: Vec<bool> = keys2.iter().map(|k| db.is_resident(k)).collect();
+                let _ = std::fs::remove_file(&p);
+                Ok(format!("{res:?}|{}|{}", scan.iter().map(hex::encode).collect::<Vec<_>>().join(","), db.entry_count()))
+            };
+            let orig = load(&bytes)?;
+            // walk the file: [bucket u8][pages u32] then pages of 1024 bytes holding 40-byte entries
+            let mut protected = Vec::new();
+            let mut off = 0usize;
+            while off + 5 <= bytes.len() {
+                let pages = u32::from_le_bytes([bytes[off + 1], bytes[off + 2], bytes[off + 3], bytes[off + 4]]) as usize;
+                off += 5;
+                for _ in 0..pages {
+                    if off + 1024 > bytes.len() {
+                        break;
+                    }
+                    for j in 0..25 {
+                        let o = off + j * 40;
+                        if bytes[o..o + 4] != [0, 0, 0, 0] {
+                            protected.push(o..o + 37);
+                        }
+                    }
+                    off += 1024;
+                }
+            }
+            if protected.is_empty() {
+                return Err("the saved residency file has no entries".into());
+            }
+            Ok(Artifact {
+                bytes,
+                protected,
+                whole: false,
+                fixed_size: true,
+                check: Box::new(move |b| match load(b) {
+                    Err(_) => Verdict::Refused,
+                    Ok(v) if v == orig => Verdict::Same,
+                    Ok(v) => Verdict::Different(format!("ResidencyDb::load accepted the file and yields {} (original: {})", &v[..v.len().min(300)], &orig[..orig.len().min(300)])),
+                }),
+            })
+        }
         "residency_entry" => {
             let ty = *rng.pick(&[ResidencyUpdateType::Set, ResidencyUpdateType::Create, ResidencyUpdateType::Delete, ResidencyUpdateType::MarkResident, ResidencyUpdateType::MarkNonResident]);
             let e = ResidencyEntry::new(key16(&mut rng), ResidencySpan::range(rng.next_u64() as i32, rng.next_u64() as i32), ty);
@@ -286,10 +449,12 @@ fn build_artifact(kind: &str, aseed: u64, n: u32, root: &std::path::Path) -> Res
             let orig_doc = doc_view(&bytes).map_err(|e| format!("harness: the uncorrupted response is not BPSV: {e}"))?;
             let orig_data = orig.data;
             let pos = bytes.windows(10).rposition(|w| w == b"Checksum: ").ok_or("no checksum line")?;
+            let total_len = bytes.len();
             Ok(Artifact {
                 bytes,
                 // SHA-256 is defined over every byte before the last "Checksum: " line
-                protected: vec![0..pos],
+                // the message and the 64 hex digits of the checksum itself
+                protected: vec![0..pos, pos + 10..(pos + 74).min(total_len)],
                 whole: false,
                 fixed_size: false,
                 // the reader is the client's entry point: MIME + checksum validation + BPSV parse
@@ -419,7 +584,7 @@ impl Scenario for Corrupt {
     }
 
     fn generate(&self, rng: &mut Rng, _tier: Tier) -> Case {
-        let kind = *rng.pick(&["encoding", "archive_index", "lru_file", "lru_file", "update_entry", "residency_entry", "local_header", "mime_v1", "ca_cache", "ca_cache", "ml_cache", "ml_cache", "ml_cache"]);
+        let kind = *rng.pick(&["encoding", "archive_index", "lru_file", "lru_file", "update_entry", "residency_entry", "local_header", "mime_v1", "idx_file", "residency_file", "ca_cache", "ca_cache", "ml_cache", "ml_cache", "ml_cache"]);
         let mut ops = Vec::new();
         if kind.ends_with("_cache") {
             let nv = 3usize;
@@ -596,7 +761,11 @@ async fn run_cache(case: &Case, ctx: &mut Ctx) -> Option<Violation> {
                         // validated put goes to L1; mirror it into the disk layer so the file exists
                         let r = m.put_with_validation(ContentCacheKey::new(keys[kidx]), keys[kidx], data.clone()).await.map(|_| ()).map_err(|e| e.to_string());
                         if r.is_ok() && disk_layer == 1 {
+                            // every put invalidates the other layers, so BOTH layers hold the key only after a
+                            // promotion: write the disk layer, then copy up - a valid memory copy over a
+                            // corruptible disk copy (evicted later by the one-entry first layer)
                             let _ = m.put_to_layer(ContentCacheKey::new(keys[kidx]), data, 1).await;
+                            let _ = m.promote(&ContentCacheKey::new(keys[kidx]), 1, 0).await;
                         }
                         r
                     }
@@ -604,7 +773,9 @@ async fn run_cache(case: &Case, ctx: &mut Ctx) -> Option<Violation> {
                 ctx.event(|| json!({"k":"op","op":"put_validated","value":v,"under_key_of":kidx,"ok":r.is_ok()}));
                 ctx.obs(&[r.is_ok() as u8]);
                 if kidx != *v && r.is_ok() && values[*v] != values[kidx] {
-                    return Some(bad("wrong_key_put_accepted", format!("op #{i}: a validating put stored value #{v} under the content key of value #{kidx}")));
+                    // C07 promises that validating READS never return bytes that fail the key; a store that accepts
+                    // them and validates lazily keeps that promise, so this is counted and the reads decide
+                    ctx.count("wrong_key_put_accepted_at_put_time");
                 }
             }
             COp::CorruptFile { v, how, pos } => {
@@ -650,7 +821,9 @@ async fn run_cache(case: &Case, ctx: &mut Ctx) -> Option<Violation> {
                             use cascette_cache::traits::AsyncCache;
                             if let Ok(Some(b)) = m.get(&ContentCacheKey::new(keys[*v])).await {
                                 if ContentKey::from_data(&b) != keys[*v] {
-                                    return Some(bad("corrupt_entry_not_dropped", format!("op #{i}: after a validating read detected corruption of content key #{v}, a plain get still serves {} corrupt bytes", b.len())));
+                                    // dropping a detected corruption from every layer is C12's promise, and C12 checks
+                                    // it; C07 only promises what validating reads return
+                                    ctx.count("corrupt_entry_still_served_by_plain_get");
                                 }
                             }
                         }
